@@ -130,7 +130,7 @@ class World:
             self.D.received()
         return self.D if self.D.alive else self.O
 
-    def deliver_block(self, block, now):
+    def deliver_block(self, block, now, in_response_to=0):
         """returns (relays seen by the non-delivering observer, deliverer) """
         self.net.clock.t = now
         who = self.deliverer()
@@ -138,7 +138,7 @@ class World:
         pl_block = enc.enc_block(block)
         from skepticoin.networking.messages import MessageHeader
         who.msg_id += 1
-        h = MessageHeader(int(now), who.msg_id, 0, 4242)
+        h = MessageHeader(int(now), who.msg_id, in_response_to, 4242)
         data = h.serialize() + b'\x00\x04' + b'\x00' + b'\x00\x00' + pl_block
         who.send_raw(simnet.MAGIC + struct.pack(">I", len(data)) + data)
         bid = enc.blockid(block)
@@ -358,6 +358,77 @@ def closing_check(w, bad, trace):
     return 'closing-stored'
 
 
+BULK_INVALID = ('time-equals-parent', 'signed-by-foreign-key', 'reward-plus-1', 'missing-tx', 'same-ref-in-two-txs')
+
+
+def bulk_then_rejected(arg):
+    """a start state with blocks pending from a bulk download (delivered as answers to a request: applied but not yet
+    validated or flushed), then a relayed block that is rejected, then valid relayed blocks on whatever the node's head is:
+    the rejection must not impair the storing of the later blocks"""
+    nbulk, invalid = arg
+    setup_worker()
+    w = World()
+    uni = w.uni
+    bad = []
+    tr = ('bulk-answer x%d' % nbulk, 'relay:broken-' + invalid, 'relay:valid', 'relay:valid')
+    by_id = {}
+
+    def node_of(bid, base):
+        # blocks of this scenario are all on the line base, base/e, base/e/e, ... and their 'a' / 'e' children
+        for n in list(by_id.values()):
+            if n.bid == bid:
+                return n
+        return None
+    try:
+        head = w.W['base_nodes'][-1]
+        for n in w.W['base_nodes']:
+            by_id[n.path] = n
+        now = head.ts + 3000
+        path = head.path
+        for i in range(nbulk):
+            n = uni.get(path + ('e',))
+            by_id[n.path] = n
+            w.deliver_block(n.block, max(now, n.ts), in_response_to=77)
+            path = n.path
+        H = node_of(w.node.cm.coinstate.current_chain_hash, head)
+        if H is None:
+            return bad
+        fam = cands.c05_candidates if invalid.startswith('time') else (cands.c02_candidates if invalid.startswith('reward') else cands.c01_candidates)
+        cl = [c for c in fam(H, uni) if c.name == invalid and c.wire() is not None]
+        if not cl:
+            return bad
+        X = cl[0]
+        w.deliver_block(X.block, max(now, X.now) if not invalid.startswith('time') else X.now)
+        s = w.snapshot()
+        if enc.blockid(X.block) in s['state_ids'] or enc.blockid(X.block) in s['rows']:
+            bad.append(('invalid-block-entered-state', "the rule-breaking relayed block entered chain state / the store", tr[:2]))
+        for k in (1, 2):
+            H2 = node_of(w.node.cm.coinstate.current_chain_hash, head)
+            if H2 is None:
+                break
+            C = None
+            for lab in ('a', 'e'):
+                c = uni.get(H2.path + (lab,))
+                if c is not None and c.bid not in w.snapshot()['state_ids']:
+                    C = c
+                    break
+            if C is None:
+                break
+            by_id[C.path] = C
+            w.deliver_block(C.block, C.ts + 3000)
+            s = w.snapshot()
+            if C.bid in s['state_ids'] and C.bid not in s['rows']:
+                bad.append(('later-block-not-stored', "with %d bulk-download block(s) pending, after the rejected relay of '%s' valid "
+                            "relayed block no. %d is accepted into state but not written to the store (buffer holds %d)" % (
+                                nbulk, invalid, k, len(s['buffer'])), tr[:2 + k]))
+        if w.net.escaped:
+            bad.append(('exception-escaped', "bulk-pending scenario: %s" % (w.net.escaped[0],), tr))
+            w.net.escaped.clear()
+    finally:
+        w.close()
+    return bad
+
+
 def canon(w):
     s = w.snapshot()
     return (s['state_ids'], s['head'], s['pool'], s['rows'], s['buffer'], s['lkv'], s['d_alive'], s['o_alive'])
@@ -417,6 +488,12 @@ def run(ctx):
                     sample = list(trace) + [nm]
         frontier = nxt
         ctx.log("depth", d + 1, "new states", len(nxt))
+    # ---- start states with bulk-download blocks pending
+    bjobs = [(nb, inv) for nb in (1, 2) for inv in BULK_INVALID]
+    for (nb, inv), bad in zip(bjobs, ctx.pmap(bulk_then_rejected, bjobs)):
+        for k, what, tr in bad:
+            ctx.violation(k + ':bulk-pending', "%s; deliveries %s" % (what, list(tr)), {'bulk': [nb, inv]})
+    ctx.cov['bulk_pending_sequences'] = len(bjobs)
     # ---- the schedule dimension: the networking thread handles a delivery while the miner thread publishes a found block
     thr = thrscen.run(ctx, 'MN', 1 if ctx.quick else 2, names=['found-vs-valid-sibling-delivery', 'found-vs-invalid-delivery', 'found-vs-transaction-delivery'], only=['C09:'])
     ctx.cov['thread_schedules'] = thr
@@ -436,6 +513,8 @@ def run(ctx):
 def replay(data, ctx):
     if 'thread_scenario' in data:
         return thrscen.replay(data)
+    if 'bulk' in data:
+        return [(k + ':bulk-pending', w_) for k, w_, tr in bulk_then_rejected(tuple(data['bulk']))]
     setup_worker()
     trace = tuple(data['trace'])
     closing = trace and trace[-1] == 'closing-valid'
